@@ -3,7 +3,7 @@ python3 stdlib only."""
 import hashlib, json, os, re, shutil, subprocess, sys, time, glob, random
 from concurrent.futures import ThreadPoolExecutor
 
-V = os.environ.get('VERIF_HOME', '/verif')
+V = os.environ.get('VERIF_HOME', os.path.dirname(os.path.abspath(__file__)))
 REPO = os.environ.get('VERIF_REPO', '/repo')
 WORK = V + '/work'
 SPEC = V + '/spec'
